@@ -35,6 +35,8 @@ pub fn alphabet(cs: u32) -> Vec<Op> {
         a.push(Op::CreateFile { base: r, path: s(p), keep: None });
     }
     a.push(Op::CreateFile { base: r, path: long256(), keep: None });
+    // a name that has another alphabet name ("a") as a proper prefix: lookups must not match on a common prefix
+    a.push(Op::CreateFile { base: r, path: s("a2"), keep: None });
     // 100 units: 8 long-name slots + 1 -> fills a 16-slot root quickly
     a.push(Op::CreateFile { base: r, path: "m".repeat(100), keep: None });
     a.push(Op::CreateDir { base: r, path: "k".repeat(100), keep: None });
@@ -77,6 +79,8 @@ pub fn alphabet(cs: u32) -> Vec<Op> {
         a.push(Op::Rename { base: r, src: s(p), dst_base: r, dst: s(q) });
     }
     a.push(Op::Rename { base: r, src: s("a"), dst_base: r, dst: long256() });
+    // destination inside the moved directory AND an invalid last component (both error kinds apply)
+    a.push(Op::Rename { base: r, src: s("d"), dst_base: r, dst: s("d/x:y") });
     // handles: a file handle that writes (other entries are then moved around it), a dir handle as base
     a.push(Op::CreateFile { base: r, path: s("a"), keep: Some(0) });
     a.push(Op::CreateFile { base: r, path: s("d/a"), keep: Some(1) });
